@@ -101,6 +101,8 @@ pub struct Env<'a> {
     pub breadth_cap: Word,
     /// Set when the failure happened inside a compute child.
     pub failed_in_child: bool,
+    /// The state error that made a state read fail (it must reach the caller unchanged).
+    pub state_error: Option<String>,
 }
 
 impl<'a> Env<'a> {
@@ -126,6 +128,7 @@ impl<'a> Env<'a> {
             max_executed: 200_000,
             breadth_cap: 10_000,
             failed_in_child: false,
+            state_error: None,
         }
     }
     /// Charge for `op`; `OutOfGas` if the total would exceed the limit.
@@ -292,7 +295,13 @@ fn key_read(m: &mut Machine, env: &mut Env, post: bool, ext: bool) -> R<()> {
         key: key.clone(),
         count: n,
     });
-    let vals = view.answer(&contract, &key, n).map_err(|_| Fail::Err)?;
+    let vals = match view.answer(&contract, &key, n) {
+        Ok(v) => v,
+        Err(e) => {
+            env.state_error = Some(e);
+            return Err(Fail::Err);
+        }
+    };
     if vals.is_empty() {
         if addr > m.mem.len() {
             return Err(Fail::Unspec("empty-read-oob-addr"));
